@@ -62,6 +62,11 @@ func (c *Inc) MarkDead()  { c.dead.Store(true) }
 
 func (c *Inc) SetPlan(p *CrashPlan) {
 	c.planMu.Lock()
+	if p == nil && c.plan != nil && c.plan.fired {
+		// keep a fired plan (its crash is in progress)
+		c.planMu.Unlock()
+		return
+	}
 	c.plan = p
 	c.planMu.Unlock()
 }
